@@ -148,6 +148,11 @@ func gen(seed uint64, tier string) Scenario {
 	n.LatMaxUS = n.LatMinUS + r.Pick(0, 50, 500)
 	n.ChunkMode = r.Pick(0, 1, 2, 3, 3)
 	n.ChunkMaxLen = r.Pick(64, 512, 4096)
+	// writes that wait together may travel as one byte run (pipelined requests, a response and
+	// the frames behind it); hash-derived so that no other choice moves
+	if x := core.HS(seed, "c11.coalesce", "", 0) % 100; x < 30 {
+		n.Coalesce = []float64{0.3, 0.7, 1}[x%3]
+	}
 	if deaf {
 		n.Window = []int{2048, 8192}[core.HS(seed, "c11.window", "", 0)%2]
 		// larger packets fill the window quickly: keep 1-byte segments for small writes only
